@@ -105,12 +105,16 @@ def run_case(case):
         reg.process_meta_data(g.generate(sample), model_name="Root")
         try:
             reg.merge_models(g)
+            if case["mask"] % 5 == 0:
+                reg.merge_models(g)  # a second call on the same registry is observed (and judged) like the first
             reg.generate_names()
         except Exception as e:
             MON.violations.append((f"merge-raised:{type(e).__name__}", f"merge_models/generate_names raised {type(e).__name__}: {e}"))
     else:
         try:
             run = driver.infer([(n_, s) for n_, s in case["models"]], case["opts"])
+            if case.get("i", 0) % 5 == 0:
+                run.registry.merge_models(run.generator)
         except ZeroDivisionError:
             return {"status": "outside", "why": "both key sets empty (0/0 in the percent comparator)", "witnesses": [], "counters": {}}
         except Exception as e:
